@@ -66,6 +66,12 @@ def run(rep, tier, seed):
     if "Checking temporal properties for the complete state space" not in open(tl.log, errors="replace").read():
         raise tlc.TlcError("MC_C20_live: TLC did not check the temporal property")
     rep.cov["liveness_states"] = tl.distinct
+    # unbounded safety of the stack machine (any number of files and lines): the TLAPS proof of MechIncludeProof
+    ok, nobl, txt = tlc.tlapm("MechIncludeProof", ["MechIncludeMachine"])
+    if not ok:
+        rep.fail("C20/model/proof", "tlapm could not check the proof that the files on the include stack are pairwise distinct: " + txt[-600:], {"tlapm": txt})
+    rep.cov["tlaps_obligations_proved"] = nobl
+    log(f"[C20] liveness checked on {tl.distinct} states; TLAPS: {nobl} proof obligations of MechIncludeProof (StackDistinct, unbounded) proved")
     if tier == "quick":
         t = tlc.run("MC_C20", "MC_C20_quick2.cfg", workers=16, timeout=1500)
     else:
